@@ -2010,6 +2010,13 @@ func (cs *State) addVote(vote *types.Vote, peerID p2p.ID) (added bool, err error
 			return
 		}
 
+		if cs.LastCommit == nil {
+			// At the chain's initial height there is no previous height and no
+			// last commit to add the vote to (AddVote panics on a nil vote set).
+			cs.Logger.Debug("precommit vote for the height before the initial height has been ignored", "vote", vote)
+			return
+		}
+
 		added, err = cs.LastCommit.AddVote(vote)
 		if !added {
 			return
